@@ -227,4 +227,93 @@ pub proof fn lemma_new_size<N, const K: usize>(a: Arena<N, K>, troot: Option<usi
         }
     }
 }
+// ---- "exactly the nodes of the subtree, once each" ----
+pub open spec fn lists(xs: Seq<DfsNodeData>, x: usize) -> bool { exists|j: int| 0 <= j < xs.len() && (#[trigger] xs[j]).index == x }
+pub open spec fn no_dup(xs: Seq<DfsNodeData>) -> bool { forall|j1: int, j2: int| 0 <= j1 < j2 < xs.len() ==> (#[trigger] xs[j1]).index != (#[trigger] xs[j2]).index }
+pub proof fn lemma_lists_concat(xs: Seq<DfsNodeData>, ys: Seq<DfsNodeData>, x: usize)
+    ensures lists(xs + ys, x) <==> lists(xs, x) || lists(ys, x)
+{
+    let zs = xs + ys;
+    if lists(zs, x) {
+        let j = choose|j: int| 0 <= j < zs.len() && (#[trigger] zs[j]).index == x;
+        if j < xs.len() { assert(xs[j] == zs[j]); } else { assert(ys[j - xs.len()] == zs[j]); }
+    }
+    if lists(xs, x) { let j = choose|j: int| 0 <= j < xs.len() && (#[trigger] xs[j]).index == x; assert(zs[j] == xs[j]); }
+    if lists(ys, x) { let j = choose|j: int| 0 <= j < ys.len() && (#[trigger] ys[j]).index == x; assert(zs[xs.len() + j] == ys[j]); }
+}
+pub proof fn lemma_nodup_concat(xs: Seq<DfsNodeData>, ys: Seq<DfsNodeData>)
+    requires no_dup(xs), no_dup(ys), forall|x: usize| !(lists(xs, x) && lists(ys, x))
+    ensures no_dup(xs + ys)
+{
+    let zs = xs + ys;
+    assert forall|j1: int, j2: int| 0 <= j1 < j2 < zs.len() implies (#[trigger] zs[j1]).index != (#[trigger] zs[j2]).index by {
+        if j2 < xs.len() { assert(zs[j1] == xs[j1] && zs[j2] == xs[j2]); }
+        else if j1 >= xs.len() { assert(zs[j1] == ys[j1 - xs.len()] && zs[j2] == ys[j2 - xs.len()]); }
+        else {
+            assert(zs[j1] == xs[j1] && zs[j2] == ys[j2 - xs.len()]);
+            if zs[j1].index == zs[j2].index { assert(lists(xs, zs[j1].index)); assert(lists(ys, zs[j1].index)); }
+        }
+    }
+}
+// the pre-order below `it` lists exactly the nodes at or below it, each once
+pub proof fn lemma_pre_exact<N, const K: usize>(a: Arena<N, K>, h: Map<usize, nat>, d: Map<usize, nat>, it: DfsNodeData)
+    requires kids_ok(a), parents_ok(a), kids_unique(a), ranked(a, d), ranked_down(a, h), a.dom().contains(it.index)
+    ensures no_dup(pre_items(a, h, it)), forall|x: usize| lists(pre_items(a, h, it), x) <==> sub_nodes(a, it.index).contains(x)
+    decreases h[it.index], K + 1
+{
+    let i = it.index;
+    let dp = (it.depth + 1) as usize;
+    let tail = concat_pre(a, h, kid_items(a[i].children, 0, dp), h[i]);
+    lemma_concat_exact(a, h, d, i, 0, dp);
+    lemma_c_sub_split(a, d, i);
+    let head = seq![it];
+    assert(pre_items(a, h, it) == head + tail);
+    assert(no_dup(head));
+    assert forall|x: usize| lists(head, x) <==> x == i by {
+        if x == i { assert(head[0].index == i); }
+    }
+    assert forall|x: usize| !(lists(head, x) && lists(tail, x)) by { }
+    lemma_nodup_concat(head, tail);
+    assert forall|x: usize| lists(pre_items(a, h, it), x) <==> sub_nodes(a, i).contains(x) by {
+        lemma_lists_concat(head, tail, x);
+        assert(sub_nodes(a, i).contains(x) <==> (x == i || kids_nodes(a, i, 0).contains(x)));
+    }
+}
+pub proof fn lemma_concat_exact<N, const K: usize>(a: Arena<N, K>, h: Map<usize, nat>, d: Map<usize, nat>, i: usize, lo: int, dp: usize)
+    requires kids_ok(a), parents_ok(a), kids_unique(a), ranked(a, d), ranked_down(a, h), a.dom().contains(i), 0 <= lo <= K
+    ensures no_dup(concat_pre(a, h, kid_items(a[i].children, lo, dp), h[i])),
+        forall|x: usize| lists(concat_pre(a, h, kid_items(a[i].children, lo, dp), h[i]), x) <==> kids_nodes(a, i, lo).contains(x)
+    decreases h[i], K - lo
+{
+    let ch = a[i].children;
+    if lo >= K {
+        assert(kid_items(ch, lo, dp) =~= Seq::<DfsNodeData>::empty());
+        assert(kids_nodes(a, i, lo) =~= Set::<usize>::empty());
+    } else {
+        lemma_c_kids_split(a, d, i, lo);
+        lemma_concat_exact(a, h, d, i, lo + 1, dp);
+        if ch[lo] is Some {
+            let c = ch[lo].unwrap();
+            let item = DfsNodeData { depth: dp, index: c, n_remaining: count_some_from(ch, lo + 1) as usize };
+            let rest = kid_items(ch, lo + 1, dp);
+            let all = kid_items(ch, lo, dp);
+            assert(all == seq![item] + rest);
+            assert(all[0] == item);
+            assert(all.drop_first() =~= rest);
+            assert(a.dom().contains(c) && h[c] < h[i]);
+            lemma_pre_exact(a, h, d, item);
+            let xs = pre_items(a, h, item);
+            let ys = concat_pre(a, h, rest, h[i]);
+            assert(concat_pre(a, h, all, h[i]) == xs + ys);
+            assert forall|x: usize| !(lists(xs, x) && lists(ys, x)) by {
+                assert(!(sub_nodes(a, c).contains(x) && kids_nodes(a, i, lo + 1).contains(x)));
+            }
+            lemma_nodup_concat(xs, ys);
+            assert forall|x: usize| lists(xs + ys, x) <==> kids_nodes(a, i, lo).contains(x) by {
+                lemma_lists_concat(xs, ys, x);
+                assert(kids_nodes(a, i, lo).contains(x) <==> (sub_nodes(a, c).contains(x) || kids_nodes(a, i, lo + 1).contains(x)));
+            }
+        }
+    }
+}
 // ---- end count_spec ----
